@@ -128,6 +128,7 @@ func (r *syncRun) postSwitch(f *syncFollower, before, after []types.Hash, desc s
 				gerr = fmt.Errorf("panic: %s", firstLine(p))
 			}
 			pooled := f.ch.GetPatch(b.Address, b.Identifier()) != nil
+			r.nr.onGossip(f, b, gerr)
 			gossiped++
 			c.Hit("stale-gossip-of-abandoned-block")
 			if gerr == nil || pooled {
